@@ -1,6 +1,7 @@
 """C02: check configuration (PROPS_ENTRY, consumed by ./check and gen_manifest.py) and the list of lemmas that make up
 the property file (SPEC_ENTRY, consumed by tools/mkprops.py)."""
-PROPS_ENTRY = {'models': ['Model/Queue.v'],
+PROPS_ENTRY = {'lint': 'tools/lint_c02.py',
+ 'models': ['Model/Queue.v'],
  'design_ref': 'DESIGN.md 3 C02',
  'assumptions': ['memory is sequentially consistent: fences are events whose position is proved and compared; their hardware effect is trusted',
                  'source lint: fence(SeqCst) between ring-slot store and Release store of idx'],
@@ -8,8 +9,16 @@ PROPS_ENTRY = {'models': ['Model/Queue.v'],
                'consistency. Trusted: Coq kernel, extraction, hand-written model, harness, the semantics of fence(SeqCst)/Release.'}
 
 SPEC_ENTRY = {'title': 'The device never sees an available index covering an incomplete entry',
- 'imports': ['Model.Queue', 'Proofs.QueueInv', 'Proofs.QueueReach', 'Proofs.QueueProps'],
- 'theorems': [('C02_idx_last',
+ 'imports': ['Model.Queue', 'Proofs.QueueInv', 'Proofs.QueueReach', 'Proofs.QueueProps', 'Proofs.QueueVisible'],
+ 'theorems': [('C02_prefix_safe', 'Proofs/QueueVisible.v', 'add_prefix_safe',
+               'EVERY instant: for every reachable state, every number U of most recent submissions the device has not fetched yet, every successful submission and every prefix p of its stores (evs = p ++ q): in the memory obtained by applying p, each of the U unfetched entries still has its ring slot and walks to exactly its buffers, and the index the device can read is still the old one unless all stores have been done (sequentially consistent memory)'),
+              ('C02_end_safe', 'Proofs/QueueVisible.v', 'add_end_safe', 'when the index store has been done the new entry is complete too: all U+1 unfetched entries'),
+              ('C02_pop_keeps_unfetched', 'Proofs/QueueVisible.v', 'pop_keeps_unfetched', 'consuming a completion (of a chain the device has fetched) leaves the unfetched entries and their ring slots alone'),
+              ('C02_ring_invariant', 'Proofs/QueueVisible.v', 'RingOK_add', 'the ring-slot invariant is kept by submissions, and fewer entries than descriptors are ever unfetched'),
+              ('C02_slot_distinct', 'Proofs/QueueVisible.v', 'slot_distinct', 'the slot a submission writes is none of the slots of the unfetched entries, for every index value including across the 16-bit wrap, for each of the sixteen queue sizes'),
+              ('C02_add_events_faithful', 'Proofs/QueueVisible.v', 'add_events_faithful', 'the store events are faithful: applying them in order to the old device-visible memory gives the new one'),
+              ('C02_pop_events_faithful', 'Proofs/QueueVisible.v', 'pop_events_faithful', None),
+              ('C02_idx_last',
                'Proofs/QueueProps.v',
                'add_store_order',
                'the stores of a successful submission are: shares and descriptor stores into cells of the new chain only (cells of no outstanding chain), then '
